@@ -871,8 +871,14 @@ class _InternalBaseTracer(_InternalBaseTracerSuper, metaclass=MetaTracerStateMac
                 code = self.make_ast_rewriter(path=filename).visit(code)
             code_obj = compile(code, filename, "eval" if do_eval else "exec")
             if do_eval:
+                # an expression has no scaffold frames to skip; the counter is put back afterwards (with
+                # instrument=False no context was entered that would restore it)
+                orig_num_sandbox_calls_seen = self._num_sandbox_calls_seen
                 self._num_sandbox_calls_seen = 2
-                return eval(code_obj, global_env, local_env)
+                try:
+                    return eval(code_obj, global_env, local_env)
+                finally:
+                    self._num_sandbox_calls_seen = orig_num_sandbox_calls_seen
             else:
                 return exec(code_obj, global_env, local_env)
 
